@@ -62,18 +62,18 @@ RECURSIVE RunActs(_,_,_)
 RunActs(acts, idx, J) == IF idx > Len(acts) THEN J ELSE RunActs(acts, idx + 1, StepAct(J, acts[idx], idx))
 
 \* ---------------------------------------------------------------- lookups
-Participates(e, a) == a.has_orig /\ ~(e.k = "optional" /\ a.orig = <<>>)
+Participates(e, a) == a.has_orig /\ ~(e.k \in FusedKinds /\ a.orig = <<>>)
 \* the step text rebuilt from the pattern and the reported original texts
 OrigPiece(e, mk, a, first) ==
    LET sp == IF first THEN <<>> ELSE <<" ">> IN
-   IF e.k = "optional" THEN (IF ~Participates(e, a) THEN <<>> ELSE IF mk \in ParseKinds THEN a.orig ELSE <<" ">> \o a.orig)
+   IF e.k \in FusedKinds THEN (IF ~Participates(e, a) THEN <<>> ELSE IF mk \in ParseKinds THEN a.orig ELSE <<" ">> \o a.orig)
    ELSE sp \o a.orig
 Rebuilt(p, mk, args) ==
    LET fidx(n) == Cardinality({m \in 1..n : p[m].k # "lit"})
    IN Flat([n \in DOMAIN p |-> IF p[n].k = "lit" THEN (IF n = 1 THEN <<>> ELSE <<" ">>) \o p[n].w
                                ELSE OrigPiece(p[n], mk, args[fidx(n)], n = 1)])
 \* the class member a field matched (an optional cfparse field reports its blank, too)
-TokOf(e, mk, a) == IF e.k = "optional" /\ mk \in ParseKinds /\ a.orig # <<>> /\ a.orig[1] = " " THEN Tail(a.orig) ELSE a.orig
+TokOf(e, mk, a) == IF e.k \in FusedKinds /\ mk \in ParseKinds /\ a.orig # <<>> /\ a.orig[1] = " " THEN Tail(a.orig) ELSE a.orig
 \* the argument that belongs to field n: a named field's by its name, the k-th anonymous field's is the k-th
 \* anonymous argument (the statement orders only those; where Match.arguments puts zero-width arguments is open)
 ArgsOk(e, l) ==
@@ -87,14 +87,19 @@ ArgsOk(e, l) ==
       /\ \A n \in DOMAIN fs : fs[n].name # <<>> => Cardinality(withName(fs[n].name)) = 1
       /\ LET AF == [n \in DOMAIN fs |-> IF fs[n].name # <<>> THEN A[CHOOSE m \in withName(fs[n].name) : TRUE]
                                                              ELSE anonA[anonIdx(n)]]
-         IN /\ \A n \in DOMAIN fs : fs[n].k # "optional" => AF[n].has_orig
+         IN /\ \A n \in DOMAIN fs : fs[n].k \notin FusedKinds => AF[n].has_orig
             /\ Rebuilt(e.pat, e.kind, AF) = Join(l.toks)
             /\ \A n \in DOMAIN fs :
                   Participates(fs[n], AF[n]) =>
                      LET tok == TokOf(fs[n], e.kind, AF[n]) IN
                      /\ InClass(fs[n].k, tok)
-                     /\ (fs[n].k = "optional" /\ e.kind \in ParseKinds) => AF[n].orig[1] = " "
+                     /\ (fs[n].k \in FusedKinds /\ e.kind \in ParseKinds) => AF[n].orig[1] = " "
                      /\ AF[n].val = Conv(e.kind, fs[n].k, tok, AF[n].orig)
+            \* a cfparse cardinality field that took nothing: its converter yields None (?) / [] (*), and that --
+            \* not the empty matched text -- is the parameter; an unmatched regex group is not judged
+            /\ \A n \in DOMAIN fs :
+                  (fs[n].k \in FusedKinds /\ e.kind \in ParseKinds /\ ~Participates(fs[n], AF[n])) =>
+                     AF[n].val = AbsentVal(fs[n].k)
 CallOk(l) ==
    LET A == l.args
        anon  == SelectSeq(A, IsAnonArg)
